@@ -12,8 +12,9 @@ the delivery-log entries of that step; the harness diffs that against what the r
 table contents up to a bijection of session keys, delivery logs).
 
 Oracle (independent of the model), evaluated on the real nodes after every action:
-  O1  tagged data leaves only through the exit entry keyed with its circuit's last-hop key, replies arrive only at
-      the originator that owns the circuit, labelled with its circuit id;
+  O1  tagged data leaves only through the transport of the exit socket keyed with its circuit's last-hop key (also
+      when it was parked in a queue while several exit sockets of one node were opening their transports
+      concurrently), replies arrive only at the originator that owns the circuit, labelled with its circuit id;
   O2  a forged cell (unknown id / known id without keys / spliced from another circuit / plaintext flag on a
       non-create message / CREATED with an identifier that is not outstanding) changes no table entry and causes no
       datagram, except the blind backward re-encryption a relay performs;
@@ -44,8 +45,9 @@ RULE = ("history = 4..6 real TunnelCommunity nodes + 1 outsider, 1..6 circuits o
         "at the target, outcome); non-trivial = the action addressed an id that is in use at the target or moved a "
         "cell of a live circuit")
 TRUSTED_BASE = [
-    "harness/c05.py: recorder endpoints, fake exit transports (TunnelExitSocket.enable is replaced; sendto, "
-    "datagram_received, tunnel_data, is_allowed stay real), on_raw_data subclass hook, virtual clock",
+    "harness/c05.py: recorder endpoints; exit sockets are real except TunnelProtocol.open, which returns a recording "
+    "transport once the harness completes it (enable, create_transports, queue, sendto, datagram_received, "
+    "tunnel_data, is_allowed are the real code); on_raw_data subclass hook; virtual clock",
     "ipv8_rust_tunnels (X25519, HKDF, ChaCha20-Poly1305 SessionKeys, crypto_auth) and libsodium signatures: modelled "
     "symbolically (a cell is a list of (key, direction) layers around a message); the AEAD laws are hypotheses",
     "hand-written model Ipv8/C05/Model.lean of process_cell/relay_cell/send_cell/incoming_crypto/outgoing_crypto, "
@@ -116,14 +118,20 @@ class World:
                 world.orig_log.append(rec)
                 world.step_orig.append(rec)
 
-        def enable(sock):
-            if not sock.enabled:
-                sock.enabled = True
-                sock.transport_ipv4 = FakeTransport(world, sock)
-                sock.transport_ipv6 = FakeTransport(world, sock)
+        # TunnelExitSocket.enable / create_transports / sendto / queue stay REAL; only the opening of the two UDP
+        # transports is replaced by an awaitable the harness completes when it chooses ("gate"), so that the phases
+        # enable requested -> IPv4 open -> IPv6 open + queue flushed are separate, interleavable steps.
+        self.gates: list[tuple] = []          # (exit socket, "4"|"6", future)
 
-        self._saved_enable = es_mod.TunnelExitSocket.enable
-        es_mod.TunnelExitSocket.enable = enable
+        async def fake_open(proto):
+            sock = proto.received_cb.__self__
+            fut = world.loop.create_future()
+            world.gates.append((sock, "6" if ":" in proto.local_addr[0] else "4", fut))
+            await fut
+            return FakeTransport(world, sock)
+
+        self._saved_open = es_mod.TunnelProtocol.open
+        es_mod.TunnelProtocol.open = fake_open
         self._es_mod = es_mod
 
         self.nodes = [None]
@@ -221,6 +229,9 @@ class World:
         import vclock
 
         async def stop():
+            for _, _, fut in self.gates:
+                if not fut.done():
+                    fut.cancel()
             for node in self.nodes[1:]:
                 try:
                     await node.stop()
@@ -231,7 +242,7 @@ class World:
             self.drain()
         except Exception:
             pass
-        self._es_mod.TunnelExitSocket.enable = self._saved_enable
+        self._es_mod.TunnelProtocol.open = self._saved_open
         from ipv8.test.mocking.endpoint import internet
         internet.clear()
         vclock.uninstall()
@@ -252,7 +263,9 @@ class World:
                          c.relay_early_count))
         rel = [(cid, r.circuit_id, self.aidx(r.hop.address), self.pidx(r.hop.peer), kb(r.hop), r.direction,
                 r.relay_early_count) for cid, r in o.relay_from_to.items()]
-        ex = [(cid, self.aidx(e.hop.address), self.pidx(e.hop.peer), kb(e.hop), 1 if e.enabled else 0)
+        ex = [(cid, self.aidx(e.hop.address), self.pidx(e.hop.peer), kb(e.hop),
+               0 if not e.enabled else 1 if e.transport_ipv4 is None else 2 if e.transport_ipv6 is None else 3,
+               len(e.queue))
               for cid, e in o.exit_sockets.items()]
         created, creates = [], []
         for ident, cache in o.request_cache._identifiers.items():
@@ -340,6 +353,8 @@ class History:
     # ---- helpers ---------------------------------------------------------------------------------------
     def replay(self, extra=None):
         d = {"sc_seed": self.sc_seed, "step": self.stepno, "lines": self.lines[-12:], "sweep": self.do_sweep}
+        if getattr(self, "opening", None):
+            d["opening"] = self.opening
         if extra:
             d.update(extra)
         return d
@@ -395,8 +410,8 @@ class History:
             ok = d == "F" and bk is not None and bk.get("exit_key") == kb and bk.get("exit_node") == i
             if not ok:
                 self.fail("TunnelCommunity.exit_data:wrong-exit",
-                          f"data sent into circuit {cid} of node {o} left through exit entry {ecid} of node {i}, which "
-                          f"is not that circuit's exit (expected node {bk and bk.get('exit_node')})",
+                          f"data sent into circuit {cid} of node {o} left through exit socket {ecid} of node {i}, which "
+                          f"is not the socket keyed for that circuit (its exit is on node {bk and bk.get('exit_node')})",
                           {"tag": [d, o, cid, seq]})
             else:
                 self.ctx.count("delivered:exit")
@@ -437,22 +452,29 @@ class History:
             elif c is None:
                 bk["ready"] = False
 
-    def act_open(self):
+    def act_open(self, fixed=None):
         w, rng = self.w, self.rng
         o = rng.randint(1, w.n)
         goal = rng.choice([1, 2, 2, 3, 3])
         ex = rng.choice([j for j in range(1, w.n + 1) if j != o])
+        used = [bk["want_exit"] for (o2, _), bk in self.circs.items() if bk["want_exit"] != o]
+        if used and rng.random() < 0.6:
+            ex = rng.choice(used)         # several circuits end at the same exit node
+        if fixed is not None:
+            o, goal, ex = fixed
         w.begin()
         c = w.ov(o).create_circuit(goal, required_exit=w.nodes[ex].my_peer)
         w.drain()
         if c is None:
-            return
+            return None
         retry = w.ov(o).request_cache.get("retry", c.circuit_id)
-        self.circs[(o, c.circuit_id)] = {"goal": goal, "alive": True, "ready": False, "destroyed": False}
+        self.circs[(o, c.circuit_id)] = {"goal": goal, "alive": True, "ready": False, "destroyed": False, "want_exit": ex}
         hop = c.unverified_hop
         self.record(f"mk {o} {c.circuit_id} {goal} {w.pidx(hop.peer)} {w.aidx(hop.address)} "
                     f"{retry.packet_identifier + 1 if retry else 0} {ex}", o, "open", True, ("open", goal))
         self.ctx.count(f"circuit_hops:{goal}")
+        self.ctx.count("exit_node_shared" if list(bk["want_exit"] for bk in self.circs.values()).count(ex) > 1 else "exit_node_single")
+        return (o, c.circuit_id)
 
     def choices_for(self, node: int, cid_hint: int | None):
         """Values the code drew at random in this step, read back from what it sent / stored."""
@@ -489,6 +511,11 @@ class History:
             return
         h = w.header(p)
         role = self.role(node, h[2])
+        ex = w.ov(node).exit_sockets.get(h[2]) if h[1] == "cell" else None
+        if ex is not None:
+            ph = lambda e: 0 if not e.enabled else 1 if e.transport_ipv4 is None else 2 if e.transport_ipv6 is None else 3  # noqa: E731
+            others = sum(1 for c2, e2 in w.ov(node).exit_sockets.items() if c2 != h[2] and ph(e2) in (1, 2))
+            self.ctx.count(f"cell_at_exit:phase={ph(ex)}:other_sockets_opening={min(others, 2)}")
         w.inject(node, p.src, p.data)
         self.refresh_bk()
         ch = self.choices_for(node, h[2] if h[1] == "cell" else None)
@@ -534,6 +561,29 @@ class History:
         self.record(f"dlvs {idx} {w.aidx(src)} {ch}".rstrip(), node, "redirect", True,
                     ("dlvs", role, len(w.step_sends), bool(w.step_orig), bool(w.step_exit)))
         self.ctx.count(f"redirect_role:{role}")
+
+    def live_gates(self):
+        w = self.w
+        w.gates = [g for g in w.gates if not g[2].done()]
+        return w.gates
+
+    def act_gate(self, k: int | None = None):
+        """One await of some exit socket's create_transports completes (IPv4 transport, then IPv6 transport + flush)."""
+        w = self.w
+        gates = self.live_gates()
+        if not gates:
+            return
+        sock, fam, fut = gates.pop(self.rng.randrange(len(gates)) if k is None else k)
+        node = w.node_of[id(sock.overlay)]
+        before = len(sock.queue)
+        parked_elsewhere = sum(1 for c2, e2 in sock.overlay.exit_sockets.items() if e2 is not sock and len(e2.queue))
+        self.ctx.count(f"gate_while_other_sockets_of_node_hold_packets:{min(parked_elsewhere, 2)}")
+        w.begin()
+        fut.set_result(None)
+        w.drain()
+        self.record(f"og {node} {sock.circuit_id}", node, "open-transport-" + fam, True,
+                    ("og", fam, min(before, 3), len(w.step_exit)))
+        self.ctx.count(f"gate:{fam}:queued={min(before, 4)}:flushed={min(len(w.step_exit), 4)}")
 
     def ready_circuits(self):
         self.refresh_bk()
@@ -925,11 +975,60 @@ class History:
         self.ctx.count(f"destroy_mode:{mode}:{role}:{'removed' if removed else 'kept'}")
 
     # ---- driver ------------------------------------------------------------------------------------------
-    def flush(self, limit=400):
+    def flush(self, limit=600, gates=True):
         n = 0
-        while self.w.flight and n < limit and not self.failed:
-            self.act_deliver(0)
+        while (self.w.flight or (gates and self.live_gates())) and n < limit and not self.failed:
+            if self.w.flight:
+                self.act_deliver(0)
+            else:
+                self.act_gate(0)
             n += 1
+
+    def run_opening(self, seq, hops: int):
+        """Small-scope exhaustive scenario: two circuits of different originators end at the SAME exit node; `seq`
+        interleaves, per circuit, two first data cells (D) with the completion of its exit socket's IPv4 (4) and
+        IPv6 (6) transport, i.e. cells of one circuit arrive at every point of the other socket's opening phase."""
+        _random.seed(self.sc_seed)
+        self.w = World(4, self.rng)
+        w = self.w
+        try:
+            self.lines.append("reset 4")
+            self.expect.append({"sends": [], "tables": None, "log": [], "step": -1, "kind": "reset"})
+            keys = {"A": self.act_open((1, hops, 3)), "B": self.act_open((2, hops, 3))}
+            self.flush()
+            self.refresh_bk()
+            if any(k is None or not self.circs[k].get("ready") for k in keys.values()):
+                self.ctx.count("opening:setup-incomplete")
+                return
+            for which, ev in seq:
+                if self.failed:
+                    break
+                key = keys[which]
+                bk = self.circs[key]
+                if ev == "D":
+                    self.act_send_data((key, bk))
+                    self.flush(gates=False)
+                else:
+                    gs = self.live_gates()
+                    k = next((i for i, (sock, fam, _) in enumerate(gs)
+                              if fam == ev and sock.hop.keys is not None and sock.hop.keys.key_forward == bk["exit_key"]),
+                             None)
+                    if k is None:
+                        self.ctx.count("opening:gate-not-pending")
+                        continue
+                    self.act_gate(k)
+            if not self.failed:
+                self.final_probe()
+            # every data packet of the scenario must have left, each through its own circuit's socket (O1 checked that)
+            if not self.failed:
+                sent = sum(1 for (_, e) in seq if e == "D") + 2
+                if len(w.exit_log) != sent:
+                    self.fail("TunnelExitSocket.sendto:parked-packet-lost-or-duplicated",
+                              f"{sent} data cells reached exit node 3 while its sockets were opening, {len(w.exit_log)} "
+                              f"datagrams left", {"seq": seq, "hops": hops})
+            self.ctx.count("opening:histories")
+        finally:
+            w.close()
 
     def final_probe(self):
         """O5: every circuit that is still READY at its originator carries a round trip."""
@@ -1043,6 +1142,8 @@ class History:
                     self.act_tick()
                 elif r < 0.76:
                     self.act_redirect()
+                elif r < 0.83:
+                    self.act_gate()
                 else:
                     self.act_forge()
             if not self.failed and self.stop_at is None and self.do_sweep:
@@ -1123,7 +1224,7 @@ def tables_equal(real: dict, model: dict, km: KeyMap) -> str | None:
         return f"exit sockets: {len(re_)} real vs {len(me)} model"
     for a, b in zip(re_, me):
         bi = ints(b)
-        if list(a[:3]) != bi[:3] or not km.match(a[3], bi[3]) or a[4] != bi[4]:
+        if list(a[:3]) != bi[:3] or not km.match(a[3], bi[3]) or list(a[4:]) != bi[4:]:
             return f"exit entry real {a[:3] + a[4:]} vs model {b}"
     if sorted(real["Q"]) != sorted(int(x[0]) for x in model.get("Q", [])):
         return f"created-cache real {sorted(real['Q'])} vs model {model.get('Q')}"
@@ -1183,20 +1284,63 @@ def run_histories(ctx: Ctx, count: int, use_model: bool, sweeps: int = 0):
             break
 
 
+def opening_sequences():
+    """All interleavings of two circuits' [first data, second data, IPv4 transport open, IPv6 transport open + flush]
+    with D first, 4 before 6 (3 orders per circuit, C(8,4) merges: 630 sequences)."""
+    from itertools import combinations
+    per = [["D", "D", "4", "6"], ["D", "4", "D", "6"], ["D", "4", "6", "D"]]
+    for a in per:
+        for b in per:
+            for pos in combinations(range(8), 4):
+                seq, ia, ib = [], 0, 0
+                for k in range(8):
+                    if k in pos:
+                        seq.append(("A", a[ia]))
+                        ia += 1
+                    else:
+                        seq.append(("B", b[ib]))
+                        ib += 1
+                yield seq
+
+
+def run_openings(ctx: Ctx, use_model: bool):
+    seqs = list(opening_sequences())
+    if not ctx.thorough():
+        seqs = ctx.rng.sample(seqs, 40)
+    for k, seq in enumerate(seqs):
+        sc_seed = ctx.rng.getrandbits(48)
+        h = History(ctx, sc_seed)
+        h.opening = {"seq": seq, "hops": 1 + k % 2}
+        h.run_opening(seq, 1 + k % 2)
+        if use_model and not h.failed:
+            compare(ctx, h, ctx.driver().batch(h.lines))
+        fresh = [f for f in ctx.failures if not f["signature"].endswith("third-party-data-delivered-while-extending")]
+        if len(fresh) >= 3 or len(ctx.disagreements) >= 3:
+            break
+    ctx.extra["opening_phase_enumeration"] = {"sequences_run": len(seqs), "of": 630,
+                                              "exhaustive": ctx.thorough()}
+
+
 def run(ctx: Ctx):
     import logging
     logging.disable(logging.CRITICAL)
     if ctx.replay_input is not None:
         return replay(ctx, ctx.replay_input)
+    run_openings(ctx, ctx.model_ok)
     run_histories(ctx, ctx.scale(600, 5000), ctx.model_ok, sweeps=ctx.scale(2, 60))
 
 
 def search(ctx: Ctx, reason: str):
+    run_openings(ctx, False)
     run_histories(ctx, 300, False)
 
 
 def replay(ctx: Ctx, rec: dict):
     r = rec.get("replay", rec)
     h = History(ctx, r["sc_seed"], stop_at=None, verbose=True, do_sweep=bool(r.get("sweep")))
-    h.run()
+    if r.get("opening"):
+        h.opening = r["opening"]
+        h.run_opening([tuple(x) for x in r["opening"]["seq"]], r["opening"]["hops"])
+    else:
+        h.run()
     print("replay:", "property FAILS" if h.failed else "no oracle failure")
